@@ -86,8 +86,8 @@ func firstDiff(pt, t *Term, path string) string {
 	if t == nil {
 		return path + ": term ends"
 	}
-	if pt.Op == "choice" && t.Op == "choice" {
-		if _, ok := unifyChoice(pt.Args, t.Args, bindings{}); ok {
+	if pt.Op == "choice" && (t.Op == "choice" || t.Op == "gate") {
+		if _, ok := unifyChoice(pt.Args, flattenAlts(t), bindings{}); ok {
 			return ""
 		}
 		return fmt.Sprintf("%s: alternatives differ: expected %d alternatives like %s, found %s", path, len(pt.Args), truncate(pt.String(), 160), truncate(t.String(), 240))
